@@ -23,7 +23,8 @@ use std::hash::BuildHasherDefault;
 
 #[derive(Clone, Debug, Serialize, Deserialize)]
 pub struct EntryCase {
-    /// 0 bloom, 1 cms, 2 hll, 3 cmsheap, 4 cuckoo with_properties, 5 hashset compat, 6 quotient default hasher
+    /// 0 bloom, 1 cms, 2 hll, 3 cmsheap, 4 cuckoo with_properties, 5 hashset compat, 6 quotient default hasher,
+    /// 7 element types other than integers (str, String, tuples, the unit type)
     pub which: u8,
     pub a: usize,
     pub b: usize,
@@ -68,12 +69,12 @@ impl Scenario for S9 {
     fn generate(seed: u64, run: u64, prop: &'static str, _tier: Tier) -> EntryCase {
         let mut g = Sm::new(seed);
         let which = match prop {
-            "C02" => 1,
-            "C17" => 2,
+            "C02" => *g.pick(&[1u8, 1, 7]),
+            "C17" => *g.pick(&[2u8, 2, 7]),
             "C10" => 3,
-            "C13" => 6,
-            "C14" => 4,
-            _ => *g.pick(&[0u8, 4, 5, 6, 0, 4]),
+            "C13" => *g.pick(&[6u8, 6, 7]),
+            "C14" => *g.pick(&[4u8, 4, 7]),
+            _ => *g.pick(&[0u8, 4, 5, 6, 0, 4, 7, 7]),
         };
         let _ = run;
         let nk = match g.below(3) {
@@ -346,6 +347,129 @@ impl Scenario for S9 {
                     if !<H as Filter<u64>>::is_empty(&a) {
                         viol.push(v("C19", "hashset/clear/not-empty", 0, "not empty after clear".into()));
                     }
+                }
+                7 => {
+                    // unsized, owned and zero-sized element types on the default hasher; fingerprints are wide
+                    // enough for distinct strings to be distinct classes
+                    use std::hash::BuildHasher;
+                    let names: Vec<String> = case.keys.iter().take(300).map(|k| format!("k{}", k % 5000)).collect();
+                    let distinct: BTreeSet<&str> = names.iter().map(|s| s.as_str()).collect();
+                    let absent: Vec<String> = case.probes.iter().map(|k| format!("absent{}", k)).collect();
+                    stats.steps += names.len() as u64;
+                    // Bloom<str>
+                    let mut bl = BloomFilter::<str>::with_params(case.a * 64, case.b.min(5));
+                    for n in &names {
+                        bl.insert(n.as_str()).unwrap();
+                    }
+                    if let Some(n) = names.iter().find(|n| !bl.query(n.as_str())) {
+                        viol.push(v("C01", "bloom/false-negative/str", 0, format!("BloomFilter<str>: {:?} not reported", n)));
+                        return;
+                    }
+                    // Cuckoo<str>
+                    let (rng, _) = crate::rng::SimRng::new(case.rng_seed, &[]);
+                    let mut cf = CuckooFilter::<str, _>::with_params(rng, 4, 256, 56);
+                    let mut copies: BTreeMap<&str, usize> = BTreeMap::new();
+                    for n in &names {
+                        match cf.insert(n.as_str()) {
+                            Ok(true) => *copies.entry(n.as_str()).or_insert(0) += 1,
+                            Ok(false) => {
+                                viol.push(v("C14", "cuckoo/insert/ok-false", 0, format!("CuckooFilter<str>: insert({:?}) returned Ok(false)", n)));
+                                return;
+                            }
+                            Err(_) => stats.fault("full_insert"),
+                        }
+                    }
+                    let total: usize = copies.values().sum();
+                    if cf.len() != total {
+                        viol.push(v("C14", "cuckoo/len-mismatch", 0, format!("CuckooFilter<str>: len() = {}, {} successful inserts", cf.len(), total)));
+                        return;
+                    }
+                    for (n, c) in &copies {
+                        if !cf.query(n) {
+                            viol.push(v("C01", "cuckoo/false-negative/str", 0, format!("CuckooFilter<str>: {:?} not reported", n)));
+                            return;
+                        }
+                        for i in 0..*c {
+                            if !cf.delete(n) {
+                                viol.push(v("C14", "cuckoo/delete/return-mismatch", 0, format!("CuckooFilter<str>: copy {} of {} of {:?} cannot be deleted", i + 1, c, n)));
+                                return;
+                            }
+                        }
+                        if cf.query(n) {
+                            viol.push(v("C14", "cuckoo/query-mismatch", 0, format!("CuckooFilter<str>: {:?} still reported after all its copies were deleted", n)));
+                            return;
+                        }
+                    }
+                    if !cf.is_empty() {
+                        viol.push(v("C14", "cuckoo/len-mismatch", 0, "CuckooFilter<str>: not empty after deleting everything".into()));
+                        return;
+                    }
+                    // Quotient<String>
+                    let mut qf = QuotientFilter::<String>::with_params(10, 54);
+                    let mut held: BTreeSet<&str> = BTreeSet::new();
+                    for n in names.iter().take(900) {
+                        match qf.insert(n) {
+                            Ok(b) => {
+                                if b != held.insert(n.as_str()) {
+                                    viol.push(v("C13", "quotient/insert/return-mismatch", 0, format!("QuotientFilter<String>: insert({:?}) returned Ok({})", n, b)));
+                                    return;
+                                }
+                            }
+                            Err(_) => {
+                                viol.push(v("C13", "quotient/insert/err-not-full", 0, "QuotientFilter<String>: insert failed far below capacity".into()));
+                                return;
+                            }
+                        }
+                    }
+                    if qf.len() != held.len() || held.iter().any(|n| !qf.query(&n.to_string())) {
+                        viol.push(v("C13", "quotient/len-mismatch", 0, "QuotientFilter<String>: len or membership wrong".into()));
+                        return;
+                    }
+                    if let Some(a) = absent.iter().find(|a| qf.query(a)) {
+                        viol.push(v("C13", "quotient/query-mismatch", 0, format!("QuotientFilter<String>: never inserted {:?} reported with a 64-bit fingerprint", a)));
+                        return;
+                    }
+                    // CMS<str>
+                    let mut cms = CountMinSketch::<str>::with_params(case.a.max(2), case.b);
+                    let mut truth: BTreeMap<&str, usize> = BTreeMap::new();
+                    for n in &names {
+                        let r = cms.add(n.as_str());
+                        *truth.entry(n.as_str()).or_insert(0) += 1;
+                        if r != cms.query_point(n.as_str()) {
+                            viol.push(v("C02", "cms/add-return", 0, format!("CountMinSketch<str>: add({:?}) returned {}, query_point says {}", n, r, cms.query_point(n.as_str()))));
+                            return;
+                        }
+                    }
+                    for (n, t) in &truth {
+                        let q = cms.query_point(n);
+                        if q < *t || q > names.len() {
+                            viol.push(v("C02", if q < *t { "cms/underestimate" } else { "cms/exceeds-total" }, 0, format!("CountMinSketch<str>: query_point({:?}) = {}, true {}", n, q, t)));
+                            return;
+                        }
+                    }
+                    // HLL<str> against the register rule, and HLL<()> (one possible element)
+                    let b = 4 + case.a % 15;
+                    let bh = BuildHasherDefault::<DefaultHasher>::default();
+                    let mut h = HyperLogLog::<str>::new(b);
+                    let mut model = vec![0u8; 1 << b];
+                    for n in &names {
+                        h.add(n.as_str());
+                        crate::s2h_hll::model_update(&mut model, b, bh.hash_one(n.as_str()));
+                    }
+                    if h.registers() != &model[..] {
+                        viol.push(v("C17", "hll/register-rule", 0, format!("HyperLogLog<str>, b = {}: registers differ from the rule applied to hash_one of every string", b)));
+                        return;
+                    }
+                    let mut hu = HyperLogLog::<()>::new(4);
+                    hu.add(&());
+                    hu.add(&());
+                    let mut hu2 = HyperLogLog::<()>::new(4);
+                    hu2.add(&());
+                    if hu != hu2 || hu.count() != 1 {
+                        viol.push(v("C17", "hll/registers-depend-on-order-or-repetition", 0, "HyperLogLog<()>: adding the unit value twice differs from adding it once".into()));
+                        return;
+                    }
+                    let _ = distinct;
                 }
                 _ => {
                     // quotient filter on the default hasher: set semantics with 64-bit keys hashed by SipHash
